@@ -172,32 +172,50 @@ Good == [none_overrides |-> FALSE, h_in_dict_order |-> FALSE]
 \* a config/host pair is unambiguous when every block applies in both passes or in neither,
 \* except `Match final` blocks, which by definition apply in the final pass only (Appendix F)
 HasFinal(b) == b.kind = "match" /\ \E i \in 1..Len(b.crit) : b.crit[i].type = "final"
-Stable(cfg, host, env) ==
-    \A i \in 1..Len(cfg) : HasFinal(cfg[i]) \/ App1(cfg, host, env, Good)[i] = App2(cfg, host, env, Good)[i]
+StableFrom(a1, a2, cfg) == \A i \in 1..Len(cfg) : HasFinal(cfg[i]) \/ a1[i] = a2[i]
+Stable(cfg, host, env) == StableFrom(App1(cfg, host, env, Good), App2(cfg, host, env, Good), cfg)
+\* the dictionaries of all blocks, parsed once (ds[i] = BlockDict(cfg[i], Good)), as a plain tuple
+RECURSIVE DictsFrom(_, _, _)
+DictsFrom(cfg, i, fx) == IF i > Len(cfg) THEN <<>> ELSE <<BlockDict(cfg[i], fx)>> \o DictsFrom(cfg, i + 1, fx)
+DictsFx(cfg, fx) == DictsFrom(cfg, 1, fx)
+Dicts(cfg) == DictsFx(cfg, Good)
+\* both passes in one go over pre-parsed blocks: which blocks applied in each pass, and the unexpanded result.
+\* Same values as App1 / App2 / Pass2 (invariant PartsAgree); the trace spec uses this form because it walks
+\* every block twice instead of seven times per lookup.
+RECURSIVE WalkD(_, _, _, _, _, _, _, _)
+WalkD(cfg, ds, i, opts, app, host, final, env) ==
+    IF i > Len(cfg) THEN [opts |-> opts, app |-> app]
+    ELSE LET yes == Applies(cfg[i], host, opts, final, env)
+             o   == IF yes THEN Merge(opts, ds[i]) ELSE opts
+         IN  IF Len(o) >= 0 THEN WalkD(cfg, ds, i + 1, o, Append(app, yes), host, final, env) ELSE [opts |-> o, app |-> app]
+LookupParts(cfg, ds, host, env) ==
+    LET w1 == WalkD(cfg, ds, 1, <<>>, <<>>, host, FALSE, env)
+        w2 == WalkD(cfg, ds, 1, InjectHostName(w1.opts, host), <<>>, host, TRUE, env)
+    IN  [a1 |-> w1.app, a2 |-> w2.app, raw |-> w2.opts]
 \* "the first block in file order that applies": reading A = blocks applying at the end, in file order;
 \* reading B = values obtained in the first pass stay, `Match final` blocks only add (OpenSSH's two passes)
-FirstWith(app, cfg, k) ==
-    LET S == {i \in 1..Len(cfg) : app[i] /\ Has(BlockDict(cfg[i], Good), k)}
+FirstWith(app, ds, k) ==
+    LET S == {i \in 1..Len(ds) : app[i] /\ Has(ds[i], k)}
     IN  IF S = {} THEN 0 ELSE CHOOSE i \in S : \A j \in S : i <= j
 RECURSIVE Accumulate(_, _, _, _, _)
-Accumulate(app, cfg, i, k, acc) ==      \* IdentityFile: all applying blocks, in order, without duplicates
-    IF i > Len(cfg) THEN acc
-    ELSE Accumulate(app, cfg, i + 1, k,
-                    IF app[i] /\ Has(BlockDict(cfg[i], Good), k) THEN ExtendNew(acc, Get(BlockDict(cfg[i], Good), k)) ELSE acc)
+Accumulate(app, ds, i, k, acc) ==      \* IdentityFile: all applying blocks, in order, without duplicates
+    IF i > Len(ds) THEN acc
+    ELSE Accumulate(app, ds, i + 1, k, IF app[i] /\ Has(ds[i], k) THEN ExtendNew(acc, Get(ds[i], k)) ELSE acc)
 \* a1, a2 = which blocks applied in the first / final pass.  <<>> = option not obtained
-DeclRaw(a1, a2, cfg, host, k, twoPass) ==
-    LET i1 == FirstWith(a1, cfg, k)
-        i2 == FirstWith(a2, cfg, k)
+DeclRaw(a1, a2, ds, host, k, twoPass) ==
+    LET i1 == FirstWith(a1, ds, k)
+        i2 == FirstWith(a2, ds, k)
         pick == IF twoPass /\ i1 # 0 THEN i1 ELSE i2
     IN  IF k \in ListKeys
-        THEN (IF twoPass THEN Accumulate(a2, cfg, 1, k, Accumulate(a1, cfg, 1, k, <<>>)) ELSE Accumulate(a2, cfg, 1, k, <<>>))
+        THEN (IF twoPass THEN Accumulate(a2, ds, 1, k, Accumulate(a1, ds, 1, k, <<>>)) ELSE Accumulate(a2, ds, 1, k, <<>>))
         ELSE IF k = "hostname" /\ twoPass /\ i1 = 0 THEN <<host>>   \* the default is set between the passes
         ELSE IF pick = 0 THEN (IF k = "hostname" THEN <<host>> ELSE <<>>)
-        ELSE Get(BlockDict(cfg[pick], Good), k)
-AllKeys(cfg) == UNION {KeysOf(BlockDict(cfg[i], Good)) : i \in 1..Len(cfg)} \cup {"hostname"}
+        ELSE Get(ds[pick], k)
+AllKeysOf(ds) == UNION {KeysOf(ds[i]) : i \in 1..Len(ds)} \cup {"hostname"}
+AllKeys(cfg)  == AllKeysOf(Dicts(cfg))
 \* the value the statement asks for: first obtained, then tokens expanded as documented
-DeclExpanded(a1, a2, cfg, host, env, k, twoPass, uRemote) ==
-    LET raw(x) == DeclRaw(a1, a2, cfg, host, x, twoPass)
+DeclExpanded(a1, a2, ds, host, env, k, twoPass, uRemote) ==
+    LET raw(x) == DeclRaw(a1, a2, ds, host, x, twoPass)
         first(x, dflt) == IF raw(x) = <<>> THEN dflt ELSE Raw(raw(x)[1])
         ruser == first("user", env.luser)
         base  == [h |-> host, n |-> host, p |-> first("port", <<"2", "2">>), r |-> ruser,
@@ -211,10 +229,11 @@ DeclExpanded(a1, a2, cfg, host, env, k, twoPass, uRemote) ==
 TextMatches(exp, obs) ==
     LET hashes(n) == Cardinality({j \in 1..n : exp[j] = HashAtom})
         at(n) == n + 39 * hashes(n - 1)                       \* where expected atom n starts in the observed text
-    IN  /\ Len(obs) = Len(exp) + 39 * hashes(Len(exp))
-        /\ \A n \in 1..Len(exp) :
-              IF exp[n] = HashAtom THEN \A d \in 0..39 : obs[at(n) + d] \in HexDigits
-              ELSE obs[at(n)] = exp[n]
+    IN  IF \A n \in 1..Len(exp) : exp[n] # HashAtom THEN exp = obs        \* the common case, cheaply
+        ELSE /\ Len(obs) = Len(exp) + 39 * hashes(Len(exp))
+             /\ \A n \in 1..Len(exp) :
+                   IF exp[n] = HashAtom THEN \A d \in 0..39 : obs[at(n) + d] \in HexDigits
+                   ELSE obs[at(n)] = exp[n]
 ValsMatch(exp, obs) == Len(exp) = Len(obs) /\ \A i \in 1..Len(exp) : TextMatches(exp[i], obs[i])
 
 \* get_hostnames(): every pattern of every Host line
@@ -253,13 +272,22 @@ Spec == Init /\ [][Next]_vars
 (* ---- properties ---- *)
 Done == pc = "done"
 Result(k) == IF Has(opts, k) THEN Get(opts, k) ELSE <<>>
-Expected(k, twoPass) == DeclExpanded(App1(cfg, host, Env, Good), App2(cfg, host, Env, Good), cfg, host, Env, k, twoPass, FALSE)
 \* each option's value is the one from the first applying block (either reading), tokens expanded;
 \* IdentityFile accumulates without duplicates; HostName defaults to the looked-up name
-FirstObtained == Done /\ Stable(cfg, host, Env) =>
-                    \A k \in AllKeys(cfg) : Result(k) = Expected(k, FALSE) \/ Result(k) = Expected(k, TRUE)
+FirstObtained ==
+    Done => LET a1 == App1(cfg, host, Env, Good)
+                a2 == App2(cfg, host, Env, Good)
+                ds == Dicts(cfg)
+            IN  StableFrom(a1, a2, cfg) =>
+                    \A k \in AllKeysOf(ds) : \/ Result(k) = DeclExpanded(a1, a2, ds, host, Env, k, FALSE, FALSE)
+                                              \/ Result(k) = DeclExpanded(a1, a2, ds, host, Env, k, TRUE, FALSE)
+PartsAgree    == Done => LET pt == LookupParts(cfg, DictsFx(cfg, Fx), host, Env)
+                         IN  /\ pt.a1 = App1(cfg, host, Env, Fx) /\ pt.a2 = App2(cfg, host, Env, Fx)
+                             /\ pt.raw = Pass2(cfg, host, Env, Fx)
 NoStrayKeys   == Done => KeysOf(opts) \subseteq AllKeys(cfg)
 \* the stepwise walk is the fold the trace spec uses
 WalkIsLookup  == Done => opts = Lookup(cfg, host, Env, Fx, FALSE)
-Emit == Done => PrintT(<<"CASE", cfg, host, opts, Stable(cfg, host, Env)>>)
+\* spec -> code replay: one CASE per finished walk.  ToString keeps TLC's pretty-printer out of the way
+\* (it dominates the run otherwise); the check parses the string back with the same value parser
+Emit == Done => PrintT(<<"CASE", ToString(<<cfg, host, Stable(cfg, host, Env)>>)>>)
 =============================================================================
